@@ -209,7 +209,7 @@ def hex_from_double(value: float | None, factor: int = 1) -> HexStr4:
         return "7FFF"
     if not isinstance(value, float | int):
         raise ValueError(f"Invalid value: {value}, is not a double (a float/int)")
-    return f"{int(value * factor):04X}"
+    return f"{int(round(value * factor)):04X}"
 
 
 def hex_to_dtm(value: HexStr12 | HexStr14) -> str | None:  # from parsers
